@@ -226,6 +226,10 @@ def corpus() -> List[dict]:
         M('b', [['import', 'd', None], ['class', 'Base', None, [['alias', 'helper', 'd.thing']]]]),
         M('m', [['from', 0, 'd', [['helper', None]]], ['from', 0, 'b', [['Base', None]]], ['class', 'C', 'Base', []]]),
     ], 'order': None})
+    out.append({'tag': 'find-skips-alias-in-base', 'modules': [
+        M('m', [['class', 'Other', None, []], ['class', 'Base2', None, [['def', 'n']]],
+                ['class', 'Base1', 'Base2', [['alias', 'n', 'Other']]], ['class', 'C', 'Base1', []]]),
+    ], 'order': None})
     return out
 
 
@@ -312,21 +316,26 @@ class Check(PropertyCheck):
     manifest = {
         'text': ('Model/Names.v mirrors visit_Import/visit_ImportFrom/_importNames/_importAll/_handleReExport/_handleAliasing, '
                  'expandName/resolveName/_localNameToFullName/Class.find/reparent and the processModule work-list; Spec/PyImport.v '
-                 'states what CPython binds (relations + an evaluator proved sound for them). Proved for all inputs: the relative-'
-                 'level arithmetic equals importlib._resolve_name (C04_relative_level); every alias entry written for an import '
-                 'statement denotes what CPython binds (C04_alias_map_sound); expandName/resolveName never yield another object '
-                 'than CPython in any state satisfying the registry/alias invariants (C04_expand_sound, C04_star_sound_partial) '
-                 'and pydoctor establishes those invariants for every well-formed project of imports/defs/classes under every '
-                 'processing order (C04_expand_sound_project_partial); alias-entry and module-alias names resolve '
-                 '(C04_direct_import_resolves, C04_module_alias_resolves). Three refuted statements with vm_compute witnesses: '
-                 'stale defining-module name after a re-export, nested class seeing its enclosing class, class attribute '
-                 'falling back to module scope. Tie: model vs real pydoctor (registry, alias maps, bases, expandName, '
-                 'resolveName) and spec vs CPython on a complete definer x consumer x import-form x re-export x order matrix, '
-                 'the complete relative-level grid and seeded random projects; oracle = the property on every run-time bound name.'),
-        'note': ('Trusted: Coq kernel, extraction + driver, harness, CPython as the reference. Residual: classes have at most '
-                 'one base in the model; whole-project soundness is mechanised for projects without alias assignments, base '
-                 'expressions, star imports and re-exports (those are covered by the state-level theorem plus the correspondence '
-                 'check); import cycles and rebinding are outside the quantifier; the final-state semantics of the spec is '
+                 'states what CPython binds (relations incl. star imports + an evaluator proved sound for them). Proved for all '
+                 'inputs: the relative-level arithmetic equals importlib._resolve_name (C04_relative_level); every alias entry '
+                 'written for an import statement denotes what CPython binds (C04_alias_map_sound); expandName/resolveName never '
+                 'yield another object than CPython in any state satisfying the registry/alias invariants (C04_expand_sound, '
+                 '_class_scope); pydoctor ESTABLISHES those invariants for every well-formed project -- imports of every form, '
+                 'definitions, nested classes, alias assignments, base expressions, star imports from processed modules -- under '
+                 'every processing order, whenever the run stays inside the model-computed guard (C04_run_establishes_invariants), '
+                 'hence the property in the shape of its text: every name Python binds in a module or class namespace resolves to '
+                 'the Python object or not at all (C04_bound_name_sound; dotted names: C04_expand_sound_run). The guards are the '
+                 'exact images of four refuted statements with vm_compute witnesses (stale defining-module name after a re-export '
+                 'move, nested class seeing its enclosing class, class attribute falling back to module scope, Class.find skipping '
+                 'an alias in an intermediate base). Tie: model vs real pydoctor (registry, alias maps, bases, expandName, '
+                 'resolveName) and spec vs CPython on a complete definer x consumer x import-form x re-export x order matrix, the '
+                 'complete relative-level grid and seeded random projects; oracle = the property on every run-time bound name and '
+                 'on every name pydoctor knows that CPython does not bind.'),
+        'note': ('Trusted: Coq kernel, extraction + driver, harness, CPython as the reference. Residual: runs in which a re-export '
+                 'move fires are outside the whole-run theorems (reparent is proved to keep registry and alias maps sound, '
+                 'C04_reexport_keeps_soundness_partial; the run invariant with moved paths is not mechanised); classes have at most '
+                 'one base in the model; import cycles (star import from a module being processed) and rebinding are outside the '
+                 'quantifier; "every module is processed" is taken from C01 (all_closed); the final-state semantics of the spec is '
                  'validated against CPython, not proved about it.'),
         'technique': 'Coq proof + three-way differential check (model, real pydoctor, CPython)',
     }
@@ -447,6 +456,17 @@ class Check(PropertyCheck):
                 out.append(Violation('correspondence', 'Model.Names and pydoctor disagree: ' + d[0], case=case,
                                      expected=d[1], observed=d[2]))
             # how much of the observed stream lies inside the guard of the theorems
+            leak = bool(mm[4]) if len(mm) > 4 else None
+            if len(mm) > 5:
+                self.count('runs_all_closed' if mm[5] else 'runs_not_all_closed')
+                if mm[5] and leak is False:
+                    self.count('runs_inside_all_guards_of_C04_bound_name_sound')
+            self.count('runs_inside_guard_leak_false' if leak is False else 'runs_with_leak_flag')
+            if leak and p.get('tag', '').startswith('gen-'):
+                self.count('random_projects_with_leak_flag')
+            if p.get('tag') == 'nested-class-capture' and leak is False:
+                out.append(Violation('correspondence', 'the run-time guard (leak flag) of the model does not fire on the nested-class '
+                                     'capture witness', case=case, found_input=False))
             simple = is_simple(p)
             if simple:
                 self.count('projects_in_whole_project_theorem_subset')
@@ -510,7 +530,7 @@ class Check(PropertyCheck):
         return qs
 
     def diff_model(self, p: dict, at: G.Atoms, mm: Any, pr: Any) -> Optional[Tuple[str, Any, Any]]:
-        oof, anomaly, objs, results = mm
+        oof, anomaly, objs, results = mm[:4]
         if oof or anomaly:
             return ('model left its domain (oof=%s anomaly=%s)' % (oof, anomaly), None, None)
         mobjs = {}
